@@ -4,201 +4,90 @@ reader `rawProto.Unpack`/`readMessage`, modelled in Model/RawProto).  `Raw.unpac
 function on every byte string: a Go panic is the explicit outcome `reject` (the read loop recovers
 it and disconnects), so "never crashes" is totality + the session-level theorems of C02/C07.
 -/
-import Teleport.Model.RawProto
+import Teleport.Lemmas.RawRead
 namespace Teleport
 namespace C06
 open Raw
-
-theorem take?_len {n : Nat} {l a b : Bytes} (h : take? n l = some (a, b)) :
-    n ≤ l.length ∧ b.length = l.length - n := by
-  unfold take? at h
-  split at h
-  · simp only [Option.some.injEq, Prod.mk.injEq] at h
-    refine ⟨by assumption, ?_⟩
-    rw [← h.2]; simp
-  · simp at h
-
-/-! ### stage lemmas -/
-
-theorem tail_alloc (reg : Registry) (size last alloc xferLen inpLen : Nat) (pipe : List UInt8) (r3 : Bytes) :
-    (unpackTail reg size last alloc xferLen inpLen pipe r3).alloc = alloc := by
-  unfold unpackTail
-  split
-  · rfl
-  · split
-    · rfl
-    · split
-      · rfl
-      · split <;> rfl
-
-theorem xfer_alloc (reg : Registry) (size last cap alloc inpLen : Nat) (r1 : Bytes) :
-    (unpackXfer reg size last cap alloc inpLen r1).alloc = alloc := by
-  unfold unpackXfer
-  split
-  · rfl
-  · split
-    · rfl
-    · split
-      · rfl
-      · split
-        · rfl
-        · exact tail_alloc ..
-
-/-- consumed bound for the last stage, given what precedes `r3` in the input. -/
-theorem tail_consumed (reg : Registry) (size last alloc xferLen inpLen : Nat) (pipe : List UInt8) (r3 : Bytes)
-    (h : inpLen = 5 + xferLen + r3.length) :
-    (unpackTail reg size last alloc xferLen inpLen pipe r3).consumed ≤ inpLen := by
-  unfold unpackTail
-  split
-  · simp; omega
-  · split
-    · simp
-    · rename_i raw rest ht
-      have := take?_len ht
-      have hc : 4 + last ≤ inpLen := by omega
-      split
-      · exact hc
-      · split <;> exact hc
-
-theorem xfer_consumed (reg : Registry) (size last cap alloc inpLen : Nat) (r1 : Bytes)
-    (h : inpLen = 4 + r1.length) :
-    (unpackXfer reg size last cap alloc inpLen r1).consumed ≤ inpLen := by
-  unfold unpackXfer
-  split
-  · simp; omega
-  · rename_i xl r2
-    simp only [List.length_cons] at h
-    split
-    · simp; omega
-    · split
-      · simp
-      · rename_i ids r3 ht
-        have := take?_len ht
-        split
-        · simp; omega
-        · apply tail_consumed; omega
-
-/-- outcome is "input exhausted inside a frame". -/
-def isEof : Out → Bool
-  | .eof => true
-  | _ => false
-
-theorem tail_eof (reg : Registry) (size last alloc xferLen inpLen : Nat) (pipe : List UInt8) (r3 : Bytes)
-    (h : isEof (unpackTail reg size last alloc xferLen inpLen pipe r3).out = true) :
-    (unpackTail reg size last alloc xferLen inpLen pipe r3).consumed = inpLen := by
-  unfold unpackTail at h ⊢
-  split
-  · rename_i h1; simp [h1, isEof] at h
-  · rename_i h1
-    simp only [h1, if_false] at h
-    split
-    · rfl
-    · rename_i raw rest ht
-      simp only [ht] at h
-      split
-      · rename_i hu; simp [hu, isEof] at h
-      · rename_i data hu
-        simp only [hu] at h
-        split
-        · rename_i e hp; simp [hp, isEof] at h
-        · rename_i m hp; simp [hp, isEof] at h
-
-theorem xfer_eof (reg : Registry) (size last cap alloc inpLen : Nat) (r1 : Bytes)
-    (hlen : inpLen = 4 + r1.length)
-    (h : isEof (unpackXfer reg size last cap alloc inpLen r1).out = true) :
-    (unpackXfer reg size last cap alloc inpLen r1).consumed = inpLen := by
-  cases r1 with
-  | nil =>
-    unfold unpackXfer
-    simp only [List.length_nil] at hlen
-    omega
-  | cons xl r2 =>
-    unfold unpackXfer at h ⊢
-    split
-    · rename_i h1; simp [h1, isEof] at h
-    · rename_i h1
-      simp only [h1, if_false] at h
-      split
-      · rfl
-      · rename_i ids r3 ht
-        simp only [ht] at h
-        split
-        · rename_i ha; simp [ha, isEof] at h
-        · rename_i pipe ha
-          simp only [ha] at h
-          exact tail_eof _ _ _ _ _ _ _ _ h
-
-/-! ### property theorems -/
 
 /-- The largest buffer length requested while reading one frame never exceeds the configured read
     limit (or the 4 bytes of the length prefix), whatever the input and the pooled capacity. -/
 theorem C06_alloc_bound (reg : Registry) (limit cap0 : Nat) (inp : Bytes) :
     (unpack reg limit cap0 inp).alloc ≤ max limit 4 := by
-  unfold unpack
-  split
-  · rename_i a b c d r1
-    dsimp only
-    split
-    · simp; omega
-    · split
-      · simp; omega
-      · split
-        · simp; omega
-        · rw [xfer_alloc]; omega
-  · simp; omega
+  rcases long_or_short inp with h | ⟨a, b, c, d, r1, rfl⟩
+  · rw [unpack_short _ _ _ _ h]; show 4 ≤ max limit 4; omega
+  · rw [unpack_cons4]
+    by_cases h1 : Bytes.rdBe32 a b c d > limit
+    · simp only [h1, if_true]; show 4 ≤ max limit 4; omega
+    · simp only [h1, if_false]
+      by_cases h2 : Bytes.rdBe32 a b c d < 4
+      · simp only [h2, if_true]; show 4 ≤ max limit 4; omega
+      · simp only [h2, if_false]
+        generalize (if cap0 < Bytes.rdBe32 a b c d - 4 then Bytes.rdBe32 a b c d - 4 else cap0) = cap
+        by_cases h3 : cap < 1
+        · simp only [h3, if_true]; show max 4 (Bytes.rdBe32 a b c d - 4) ≤ max limit 4; omega
+        · simp only [h3, if_false]; rw [(xfer_spec ..).1]; omega
 
 /-- A frame announcing more than the limit is refused after exactly the 4 length bytes: its
     payload is never consumed and nothing beyond the prefix buffer is allocated. -/
 theorem C06_oversize_early (reg : Registry) (limit cap0 : Nat) (a b c d : UInt8) (r : Bytes)
     (h : Bytes.rdBe32 a b c d > limit) :
-    (unpack reg limit cap0 (a :: b :: c :: d :: r)).out matches .size
+    isSize (unpack reg limit cap0 (a :: b :: c :: d :: r)).out = true
     ∧ (unpack reg limit cap0 (a :: b :: c :: d :: r)).consumed = 4
     ∧ (unpack reg limit cap0 (a :: b :: c :: d :: r)).alloc = 4 := by
-  unfold unpack
-  simp [h]
+  rw [unpack_cons4]
+  simp only [h, if_true]
+  refine ⟨by first | rfl | trivial, by first | rfl | trivial, by first | rfl | trivial⟩
 
 /-- The reader never claims to have consumed more than it was given. -/
 theorem C06_consumed_le (reg : Registry) (limit cap0 : Nat) (inp : Bytes) :
     (unpack reg limit cap0 inp).consumed ≤ inp.length := by
-  unfold unpack
-  split
-  · rename_i a b c d r1
-    dsimp only
-    split
-    · simp
-    · split
-      · simp
-      · split
-        · simp
-        · apply xfer_consumed; simp; omega
-  · simp
+  rcases long_or_short inp with h | ⟨a, b, c, d, r1, rfl⟩
+  · rw [unpack_short _ _ _ _ h]; exact Nat.le_refl _
+  · rw [unpack_cons4]
+    have hl : 4 ≤ (a :: b :: c :: d :: r1).length := by simp only [List.length_cons]; omega
+    by_cases h1 : Bytes.rdBe32 a b c d > limit
+    · simp only [h1, if_true]; exact hl
+    · simp only [h1, if_false]
+      by_cases h2 : Bytes.rdBe32 a b c d < 4
+      · simp only [h2, if_true]; exact hl
+      · simp only [h2, if_false]
+        generalize (if cap0 < Bytes.rdBe32 a b c d - 4 then Bytes.rdBe32 a b c d - 4 else cap0) = cap
+        by_cases h3 : cap < 1
+        · simp only [h3, if_true]; exact hl
+        · simp only [h3, if_false]; apply (xfer_spec ..).2.1; simp only [List.length_cons]; omega
 
 /-- The reader waits for more input only while the input is not exhausted: an `eof` outcome
     means every available byte was consumed (a peer that stops sending cannot leave the reader
-    blocked on bytes it already has), and conversely every non-`eof` outcome is decided on the
-    bytes already present. -/
-theorem C06_eof_consumes_all (reg : Registry) (limit cap0 : Nat) (inp : Bytes)
-    (h : isEof (unpack reg limit cap0 inp).out = true) :
-    (unpack reg limit cap0 inp).consumed = inp.length := by
-  unfold unpack at h ⊢
-  split
-  · rename_i a b c d r1
-    dsimp only at h ⊢
-    split
-    · rename_i h1; simp [h1, isEof] at h
-    · rename_i h1
-      simp only [h1, if_false] at h
-      split
-      · rename_i h2; simp [h2, isEof] at h
-      · rename_i h2
-        simp only [h2, if_false] at h
-        split
-        · rename_i h3; simp [h3, isEof] at h
-        · rename_i h3
-          simp only [h3, if_false] at h
-          apply xfer_eof _ _ _ _ _ _ _ _ h
+    blocked on bytes it already has); every other outcome is decided on bytes already present. -/
+theorem C06_eof_consumes_all (reg : Registry) (limit cap0 : Nat) (inp : Bytes) :
+    isEof (unpack reg limit cap0 inp).out = true → (unpack reg limit cap0 inp).consumed = inp.length := by
+  rcases long_or_short inp with hs | ⟨a, b, c, d, r1, rfl⟩
+  · rw [unpack_short _ _ _ _ hs]; intro _; rfl
+  · rw [unpack_cons4]
+    by_cases h1 : Bytes.rdBe32 a b c d > limit
+    · simp only [h1, if_true]; intro h; cases h
+    · simp only [h1, if_false]
+      by_cases h2 : Bytes.rdBe32 a b c d < 4
+      · simp only [h2, if_true]; intro h; cases h
+      · simp only [h2, if_false]
+        generalize (if cap0 < Bytes.rdBe32 a b c d - 4 then Bytes.rdBe32 a b c d - 4 else cap0) = cap
+        by_cases h3 : cap < 1
+        · simp only [h3, if_true]; intro h; cases h
+        · simp only [h3, if_false]
+          apply (xfer_spec ..).2.2
           simp only [List.length_cons]; omega
-  · rfl
+
+/-- `Raw.unpack` is total: every byte string yields exactly one of the four outcomes (a Go panic
+    is `reject`), so no input can "crash" the reader in the model. Stated as an explicit
+    classification so that a model change introducing a fifth outcome breaks it. -/
+theorem C06_outcome_classified (reg : Registry) (limit cap0 : Nat) (inp : Bytes) :
+    (∃ m rest, (unpack reg limit cap0 inp).out = .ok m rest) ∨ (unpack reg limit cap0 inp).out = .eof
+    ∨ (unpack reg limit cap0 inp).out = .size ∨ (∃ why, (unpack reg limit cap0 inp).out = .reject why) := by
+  cases (unpack reg limit cap0 inp).out with
+  | ok m rest => exact Or.inl ⟨m, rest, rfl⟩
+  | eof => exact Or.inr (Or.inl rfl)
+  | size => exact Or.inr (Or.inr (Or.inl rfl))
+  | reject w => exact Or.inr (Or.inr (Or.inr ⟨w, rfl⟩))
 
 /-! Non-vacuity: a concrete oversize announcement. -/
 example : Bytes.rdBe32 0x7f 0xff 0xff 0xff > 1024 := by decide
